@@ -33,6 +33,27 @@ def reader_table(prog: Program, f: FuncInfo) -> Tuple[Dict[str, Tuple[str, Optio
     key_param: Dict[str, str] = {}
     ci = f.cls
     assert ci is not None
+    from ..flow import Flow
+    fl = Flow(cfg)
+
+    def keys_of(n, a: ast.expr) -> Set[str]:
+        """Members the constructor argument is derived from (through locals, conditional expressions, nested deserialisers)."""
+        out: Set[str] = set()
+        k0 = _key_of_expr(a, var_key, jp)
+        if k0:
+            return {k0}
+        for al in fl.alts(n, a):
+            for nm_ in al.names:
+                if nm_ in var_key:
+                    out.add(var_key[nm_])
+            for x in ast.walk(al.expr):
+                if isinstance(x, ast.Name) and x.id in var_key:
+                    out.add(var_key[x.id])
+                elif isinstance(x, (ast.Call, ast.Subscript)):
+                    kx = _key_of_expr(x, var_key, jp)
+                    if kx:
+                        out.add(kx)
+        return out
     for n in cfg.stmt_nodes():
         if isinstance(n.ast, ast.Return) and isinstance(n.ast.value, ast.Call):
             call = n.ast.value
@@ -44,14 +65,14 @@ def reader_table(prog: Program, f: FuncInfo) -> Tuple[Dict[str, Tuple[str, Optio
             for i, a in enumerate(call.args):
                 if isinstance(a, ast.Starred):
                     break
-                src_key = _key_of_expr(a, var_key, jp)
-                if src_key and i < len(pnames):
-                    key_param[src_key] = pnames[i]
+                ks = keys_of(n, a)
+                if len(ks) == 1 and i < len(pnames):
+                    key_param[next(iter(ks))] = pnames[i]
             for kw in call.keywords:
                 if kw.arg:
-                    src_key = _key_of_expr(kw.value, var_key, jp)
-                    if src_key:
-                        key_param[src_key] = kw.arg
+                    ks = keys_of(n, kw.value)
+                    if len(ks) == 1:
+                        key_param[next(iter(ks))] = kw.arg
     return reads, key_param
 
 
@@ -263,7 +284,18 @@ def _registry(ck: Check, prog: Program) -> None:
             if m is not None and m.kind == 'classmethod' and len(st.value.args) == 2:
                 gec = (st, m)
                 ctor_var = st.targets[0].id
-    ok1 = gec is not None and dotted(gec[0].value.args[0]) == code_var and dotted(gec[0].value.args[1]) == 'cls'
+    ok1 = False
+    if gec is not None:
+        from ..flow import Flow
+        from ..util import stmt_node_of
+        cfg_fj = CFG(fj, prog)
+        gn = stmt_node_of(cfg_fj, gec[0].value)
+        a0 = gec[0].value.args[0]
+        trail = set()
+        if gn is not None:
+            for al in Flow(cfg_fj).alts(gn, a0):
+                trail |= set(al.names) | {dotted(al.expr) or ''}
+        ok1 = (dotted(a0) == code_var or code_var in trail) and dotted(gec[0].value.args[1]) == 'cls'
     ret_ok = False
     for st in walk_own(fj.node):
         if isinstance(st, ast.Return) and isinstance(st.value, ast.Call) and dotted(st.value.func) == ctor_var:
@@ -292,9 +324,12 @@ def _registry(ck: Check, prog: Program) -> None:
     why = 'no registration statement found'
     if new is not None:
         cfg = CFG(new, prog)
+        from ..flow import Flow as _Fl
+        fl_new = _Fl(cfg)
         for n in cfg.stmt_nodes():
             a = n.ast
-            if isinstance(a, ast.Assign) and isinstance(a.targets[0], ast.Subscript) and '__errors_mapping__' in norm(a.targets[0].value):
+            if isinstance(a, ast.Assign) and isinstance(a.targets[0], ast.Subscript) and \
+                    any('__errors_mapping__' in norm(al.expr) for al in fl_new.alts(n, a.targets[0].value)):
                 key = a.targets[0].slice
                 gs = guard_edges(cfg, n)
                 kinds = [(classify_cond(prog, new, g.src.ast), g.label) for g in gs]
@@ -345,6 +380,9 @@ def _encoder(ck: Check, prog: Program) -> None:
     listed: List[ClassInfo] = []
     ret_ok = False
     from ..flow import Flow
+    from ..inline import inlined_program
+    prog = inlined_program(prog, [d.qualname])      # `if self._is_protocol_object(o):` is the isinstance test it wraps
+    d = prog.func(d.qualname)
     cfg = CFG(d, prog)
     fl = Flow(cfg)
     for n in cfg.nodes:
